@@ -26,6 +26,7 @@ type Parser struct {
 	stream   uint8
 	function uint8
 	wbit     bool
+	depth    int  // current list nesting depth, bounded by secs2.MaxListDepth
 	strict   bool // immutable after NewParser
 }
 
@@ -126,6 +127,7 @@ func (p *Parser) initInput(input string) {
 	p.data = input
 	p.len = len(input)
 	p.pos = 0
+	p.depth = 0
 }
 
 // errf builds a *ParseError at the parser's current offset.
@@ -365,6 +367,15 @@ func (p *Parser) parseItem() (secs2.Item, error) {
 }
 
 func (p *Parser) parseList(size int) (secs2.Item, error) {
+	// Same cap as the binary decoder: unbounded recursion on "<L <L <L ..." exhausts the goroutine
+	// stack, which is a fatal error the caller cannot recover from.
+	p.depth++
+	defer func() { p.depth-- }()
+
+	if p.depth > secs2.MaxListDepth {
+		return nil, p.errf("list nesting depth exceeds maximum allowed: %d", secs2.MaxListDepth)
+	}
+
 	childItems := make([]secs2.Item, 0, size)
 
 	for {
